@@ -1,5 +1,7 @@
 // instantiation TU for the C19 static conformance check (clang AST dump): the free-row list protocol
 #include "momo/DataTable.h"
+// every member of the row class, for the cxx2coq translation (Gen_DataRow.v)
+template class momo::internal::DataRow<momo::DataColumnList<>>;
 namespace c19inst {
 typedef momo::DataColumnList<> ColumnList;
 typedef momo::DataTable<ColumnList> Table;
